@@ -49,6 +49,97 @@ CHECKS["C18"] = dict(
 HOOK_COMMITS.append("4f281a047")
 HOOK_COMMITS.append("3fc5237af")
 
+CHECKS["C15"] = dict(
+    category="model_checking",
+    text="Controller.tla mirrors the qbft controller (StartNewInstance guards, UponDecided incl. the all-rounds signer "
+         "comparison, SaveInstance's highest/historical rule, the capacity-2 instance container, LoadHighestInstance), "
+         "the duty runner's gate and save of local decisions, in-place/on-save compaction of the commit container, "
+         "ibft/storage's highest and historical records for light and full nodes, OnTimeout, and crash + Validator.Start. "
+         "TLC exhausts all sequences of duty starts, direct instance starts, local decisions, late commits, decided "
+         "certificates (3/4 signers, rounds 1/2, past/current/future heights), timeouts and restarts for heights 0..3 / "
+         "<= 2 restarts, checking NoRerun (height-0 special case explicit), NoRerunCtl, HeightMonotone, RestartResumes, "
+         "HighestMonotone and HistMonotoneExceptRerun. Seeded TLC simulations, seven attack traces (named deviations incl. "
+         "the pre-3b0a60d89 comparison), finding and observation traces are replayed on a real Validator + attester runner "
+         "+ controller + ibft storage with full-state conformance after every step and monitors on real outputs; seeded "
+         "executions generated on the real code are validated against ControllerTrace.tla.",
+    design_ref="DESIGN.md section 5 C15",
+    note="One committee of 4, certificates {1,2,3}/{1,2,3,4}, one value per height; crash only between calls (single db Set "
+         "atomic); in-memory badger stands in for disk; the height-0 special case of ShouldProcessDuty is excluded explicitly; "
+         "known finding history-overwritten-by-rerun-after-restart (late decided below c.Height is not stored as highest); "
+         "quick-tier exhaustive runs are time-boxed (stopAfter) and report exhaustive=false when the box is hit.",
+    technique="TLA+ spec + TLC exhaustive check; simulations, attack and finding traces replayed on the real code with "
+              "state conformance; TLC trace validation of recorded executions",
+)
+CHECKS["C16"] = dict(
+    category="model_checking",
+    text="Scheduler.tla transcribes the select loops of AttesterHandler, ProposerHandler and SyncCommitteeHandler (one "
+         "module, constant Role) over the duty store: Tick (fetch-then-execute on fetchFirst, else execute/reset/fetch, "
+         "fetch-next trigger, end-of-epoch/period resets, shouldExecute under a clock lag), Reorg(prev/cur), "
+         "IndicesChange with a changing active set, HandleInitialDuties, fetch failures, assignments that change at "
+         "reorgs. TLC exhausts every interleaving for 4- and 6-slot epochs over 2-5 epochs incl. a sync-period boundary "
+         "(quick 0.23M, thorough 8.1M distinct states) checking AtMostOnce, AtItsSlot, OnlyIfAssigned, InWindow, "
+         "ExactlyOnceWhenValid (storeValid reading) and NoStaleInStore. State-graph covers, -simulate runs with 8-slot "
+         "epochs and 15 attack traces (one guard removed each) are replayed on the real handlers with five monitors on "
+         "the recorded ExecuteDuties / BeaconNode.*Duties calls and step-wise comparison of fetch calls, dispatch sets "
+         "and the real dutystore; the driver's own random schedules are validated by TLC against SchedulerTrace.tla.",
+    design_ref="DESIGN.md section 5 C16, appendix A.6, appendix B (duty handlers)",
+    note="Exhaustive only for the stated constants (<= 2 validators, bounded reorg/indices/failure budgets, no skipped "
+         "ticks, non-empty active set). 'Fetched successfully before that tick' is read as storeValid: no dispatch is "
+         "demanded after an invalidating event or failed fetch until the key is fetched again, so a handler that stops "
+         "fetching is outside the property. BeaconNetwork arithmetic is re-implemented by the virtual network.",
+    technique="TLA+ spec + TLC exhaustive check; graph cover, simulation and attack traces replayed on the real duty "
+              "handlers with monitors; TLC trace validation of recorded executions",
+)
+CHECKS["C03"] = dict(
+    category="model_checking",
+    text="Runner.tla models StartNewDuty (ShouldProcessDuty, new State, pre-consensus proof or decide), the pre-/post-consensus quorum "
+         "steps, Controller.ProcessMsg/UponDecided/StartNewInstance and baseConsensusMsgProcessing (didDecideCorrectly, "
+         "validateDecidedConsensusData) with a log of every SignBeaconObject. TLC exhausts all sequences of start-duty events, deciding "
+         "sequences, decided messages (stale/future/replayed, valid/other/invalid value), foreign-validator/-role messages and partial-signature "
+         "quorums over heights 1..3 for both role families and checks SigWindow. State-graph covers, attack traces (height check, "
+         "re-validation, once-only reporting, message-id check removed) and seeded single-message-grain random executions are replayed on "
+         "real runners of all five roles behind a real Validator.ProcessMessage; the monitor reads only the key-manager spy.",
+    design_ref="DESIGN.md section 5 C03",
+    note="QBFT deciding sequences and partial-signature quorums are macro steps in the spec (split in the random executions); heights 1..3, "
+         "operator 1 of 4 (7 in part of the random runs); SignRoot signatures are not constrained; the reference ssv-spec value check is the "
+         "oracle for 'passed the validity check'.",
+    technique="TLA+ spec + TLC exhaustive check; state-graph cover, attack traces and random executions replayed on real runners with a key-manager spy",
+)
+CHECKS["C05"] = dict(
+    category="model_checking",
+    text="PartialSig.tla models the partial-signature container (add, duplicate resolution, quorum edge), reconstruction-with-verification, "
+         "the fallback eviction, the per-role roots loop and Finished. TLC exhausts every arrival order and every placement of <= f faulty "
+         "members (wrong/mixed/duplicate/replaced shares, wrong root/slot/count, non-members) for 4 operators and selected faulty sets for 7, "
+         "simulates 10 and 13 operators and 3 roots, checking SubmittedValid, AtMostOnce, NotPrevented. Covers, simulations, attack traces "
+         "and random executions are replayed on real runners of all eight duty kinds with real threshold BLS; the oracle verifies every "
+         "Submit* signature under the validator key over the independently recomputed signing root and counts submissions per decided object.",
+    design_ref="DESIGN.md section 5 C05",
+    note="'arrived' = handed to the runner after its instance decided; exhaustive only for the stated constants; the multi-root roots loop of the "
+         "pinned commit is a named deviation (Algo=code) whose counterexample is the recorded finding submission-prevented-multiroot; the check "
+         "detects which variant the tree implements.",
+    technique="TLA+ spec + TLC exhaustive check and simulation; state-graph cover, attack traces and random executions replayed on real runners with beacon-node spy and BLS verification",
+)
+CHECKS["C13"] = dict(
+    category="model_checking",
+    text="LogStream.tla mirrors FetchHistoricalLogs / fetchLogsInBatches / PackLogs / StreamLogs / streamLogsToChan and the "
+         "SyncHistory->SyncOngoing hand-over, one action per RPC and per select case, with the tries/Fatal rule, empty-batch "
+         "markers, removed logs and head-notification queue. TLC exhausts every distribution of log kinds over blocks, batch "
+         "sizes {1,2,3}, follow distances {0,2} and <= 3 failures (subscribe failure, subscription error/connection cut, "
+         "getLogs error on any batch, blockNumber error) in any position relative to new heads, checking StrictlyIncreasing, "
+         "ExactlyOnce, NoRewind, PerBlockComplete, NoGap (delivered and cursor form) and FollowRespected. The dumped state "
+         "graph, seeded simulations of a larger instance and the counterexamples of the named deviations (pre-fix two-cursor "
+         "algorithm, four single-guard weakenings) are replayed on the real ExecutionClient behind the real EventSyncer against "
+         "a gated in-process go-ethereum rpc.Server over WebSocket; a free-running seeded fault-injection run and a PackLogs "
+         "run add timing races and large batches. Monitors read only the BlockLogs handed to the event handler.",
+    design_ref="DESIGN.md section 5 C13",
+    note="Execution node honest and append-only (no reorgs; canonical getLogs order); exhaustive only for the stated constants; "
+         "connection cut and subscription error are one event for the client; executions in which go-ethereum's rpc client "
+         "hangs after a cut are given up without verdict; trace validation (impl->spec via TLC) not built, conformance is "
+         "checked step-wise during replay instead.",
+    technique="TLA+ spec + TLC exhaustive check; state-graph cover, simulations and attack traces replayed on the real client "
+              "with a gated fake execution node; free-running fault injection",
+)
+
 _QBFT_NOTE = ("N=4 (f=1), one Byzantine operator with its real BLS key; exhaustive only per adversary class and round bound "
               "named in the evidence (macro grain: quorum-at-once delivery of prepares/commits, normalised like "
               "instance.Compact), never for all Byzantine behaviours; the fine grain (one ProcessMsg per step) is "
